@@ -167,18 +167,25 @@ func (wd *world) stepSingleton(r *singRun, x step) (gate, at string, err error) 
 			if e := s.Release(t); e != nil {
 				return "", "", e
 			}
-			name, ok := s.WaitAdopted(3 * time.Second)
-			if !ok {
-				if p, ok2 := s.TryAwait(t, 0); ok2 {
+			// either a new goroutine arrives at ActorExists (the flight), or - if the code under test does not
+			// behave like the model - the caller itself parks somewhere or finishes
+			deadline := time.Now().Add(2 * time.Second)
+			for time.Now().Before(deadline) {
+				if name, ok := s.WaitAdopted(2 * time.Millisecond); ok {
+					r.flight[t] = name
+					p, _ := s.Pending(name)
 					gate, at = wd.where(p, true)
 					return gate, at, nil
 				}
-				return "wait", "", nil
+				if p, ok := s.TryAwait(t, 2*time.Millisecond); ok {
+					gate, at = wd.where(p, true)
+					if gate == "AE" {
+						gate = "AE(inline)"
+					}
+					return gate, at, nil
+				}
 			}
-			r.flight[t] = name
-			p, _ := s.Pending(name)
-			gate, at = wd.where(p, true)
-			return gate, at, nil
+			return "wait", "", nil
 		case "wait":
 			if e := s.Release(t); e != nil {
 				return "", "", e
